@@ -71,6 +71,9 @@ def features(p):
     for o in p["ops"]:
         if o["k"] == "op":
             f.add("%s:%s:%s" % (o["a"], o["ret"], "data" if o["n"] else "nodata"))
+            if o["a"] != "RUN" and prev_open:
+                # a flush / finish that has to end a Block that is open, with or without new input in the same call
+                f.add("%s:%s:%s:blockopen" % (o["a"], o["ret"], "data" if o["n"] else "nodata"))
             if o["ret"] == "STREAM_END" and o["a"] != "RUN":
                 f.add("%s:done:%s" % (o["a"], "new" if o["given"] > given else "nonew"))
             prev_open = o["open"]; given = o["given"]
@@ -130,7 +133,7 @@ def make_history(p, rng, grant=None, long=False):
         u = max(rng.choice([1, 5, 17]), 16 if p["chain"]["pre"] == "x86" else 1)
     # the application always finishes the stream with some more input: "the whole stream still decodes to the whole
     # input".  Its outcome is decided by the contract (4): STREAM_END unless an earlier call was refused fatally.
-    ops.append(dict(k="op", a="FINISH", n=1, extra=True))
+    ops.append(dict(k="op", a="FINISH", n=rng.choice([1, 1, 0]), extra=True))
     h = dict(enc=p["enc"], chain=p["chain"], check=p["check"], grant=grant, bsize=p["bsize"], unit=u, ops=ops)
     if long:
         h["data"] = rng.choice(["repetitive", "repetitive", "repetitive", "mixed"])
@@ -246,6 +249,9 @@ def compare(ctx, p, preds, h, res):
             break
     return best or []
 
+HANG_S = 25      # a history takes milliseconds to a few seconds; lzma_code() that does not return is a finding
+HANGS = [0]      # hangs seen in this run: once it is a finding, later ones are not waited for that long
+
 class Worker:
     """A child process running harness/pydrv/c12drv.py under the sanitizer runtime (a crash of liblzma must not
     take the check down: it is a finding)."""
@@ -266,10 +272,12 @@ class Worker:
         try:
             self.errf.seek(0); self.errf.truncate()      # keep only what the current history prints
             self.p.stdin.write(json.dumps(dict(hist=hist, seed=seed)) + "\n"); self.p.stdin.flush()
-            r, _, _ = select.select([self.p.stdout], [], [], 180)
+            limit = HANG_S if HANGS[0] == 0 else 8
+            r, _, _ = select.select([self.p.stdout], [], [], limit)
             if not r:
+                HANGS[0] += 1
                 self.p.kill(); self.p.wait(); self.p = None
-                return dict(crash=True, rc="hang", stderr="HANG: no answer within 180 s")
+                return dict(crash=True, rc="hang", stderr="HANG: no answer within %d s" % limit)
             line = self.p.stdout.readline()
         except BrokenPipeError:
             line = ""
@@ -316,8 +324,14 @@ def run_replays(ctx, so, plans, label, want_traces, ev_budget, nworkers=3, long=
     lock = threading.Lock()
     def work(wi):
         w = Worker(so); w.workdir = ctx.workdir
+        hangs = 0
         for n, p, preds, h, seed in jobs[wi::nworkers]:
+            if hangs >= 2:
+                stats["skipped_after_hangs"] += 1
+                continue
             res = w.run(h, seed)
+            if res.get("crash") and res.get("rc") == "hang":
+                hangs += 1
             with lock:
                 ctx.case(key=("replay", hist_key(p), h["grant"], h["unit"]))
                 if res.get("crash"):
